@@ -156,7 +156,7 @@ struct C06 : public Driver {
             else if (r < 31) op("clear-params");
             else if (r < 33) op(gh.chance(2, 3) ? "install-fn" : "uninstall-fn");
             else if (r < 35) { Json& o = op("set"); static const std::vector<std::string> w = { "indent", "encoding", "meta", "escape", "validation" }; o["what"] = gh.pick(w); o["value"] = (int)gh.below(3); }
-            else if (r < 36) op(gh.chance(1, 2) ? "trace-add" : "trace-remove");
+            else if (r < 36) op(gh.chance(1, 3) ? "getters" : gh.chance(1, 2) ? "trace-add" : "trace-remove");
             else if (r < 38) { Json& o = op("destroy-ss"); o["i"] = (int)gh.below(5); }
             else if (r < 39) { Json& o = op("destroy-src"); o["i"] = (int)gh.below(5); }
             else op("destroy-unknown");
@@ -272,6 +272,16 @@ struct C06 : public Driver {
                         else if (w == "meta") { model.meta = 1 + v % 2; env.T->setOmitMETATag(model.meta == 1 ? XalanTransformer::eOmitMETATagYes : XalanTransformer::eOmitMETATagNo); }
                         else if (w == "escape") { model.escape = 1 + v % 2; env.T->setEscapeURLs(model.escape == 1 ? XalanTransformer::eEscapeURLsYes : XalanTransformer::eEscapeURLsNo); }
                         else { model.validation = false; env.T->setUseValidation(false); } }
+                    else if (k == "getters") {      /* what the transformer reports about itself between transformations is what was set */
+                        const int ind = env.T->getIndent(), wantInd = model.indent; const bool val = env.T->getUseValidation();
+                        const int esc = (int)env.T->getEscapeURLs(), wantEsc = model.escape == 0 ? (int)XalanTransformer::eEscapeURLsDefault : model.escape == 1 ? (int)XalanTransformer::eEscapeURLsYes : (int)XalanTransformer::eEscapeURLsNo;
+                        const int meta = (int)env.T->getOmitMETATag(), wantMeta = model.meta == 0 ? (int)XalanTransformer::eOmitMETATagDefault : model.meta == 1 ? (int)XalanTransformer::eOmitMETATagYes : (int)XalanTransformer::eOmitMETATagNo;
+                        res.count("probe:getters");
+                        if (ind != wantInd) res.violate("setting-differs", "indent", "getIndent() returns " + std::to_string(ind) + ", the last value set is " + std::to_string(wantInd) + " (-1: never set)");
+                        if (val != model.validation) res.violate("setting-differs", "validation", "getUseValidation() differs from the last value set");
+                        if (esc != wantEsc) res.violate("setting-differs", "escape-urls", "getEscapeURLs() returns " + std::to_string(esc) + ", set " + std::to_string(wantEsc));
+                        if (meta != wantMeta) res.violate("setting-differs", "omit-meta", "getOmitMETATag() returns " + std::to_string(meta) + ", set " + std::to_string(wantMeta));
+                    }
                     else if (k == "trace-add") { if (!model.trace) { env.T->addTraceListener(&tlT); model.trace = true; } }
                     else if (k == "trace-remove") { if (model.trace) { env.T->removeTraceListener(&tlT); model.trace = false; } }
                     else if (k == "destroy-ss") { if (!live.sheets.empty()) { size_t j = o.num("i") % live.sheets.size(); int st = env.T->destroyStylesheet(live.sheets[j].first); live.sheets.erase(live.sheets.begin() + j); if (st != 0) res.violate("destroy-failed", "stylesheet", "destroyStylesheet of a live handle returned " + std::to_string(st)); } }
